@@ -82,7 +82,10 @@ fn oracles(case: Case, nprod_sig: &str, fails: &mut Vec<(String, String)>) {
         }
     }
     let (closed, _ended) = case.flags();
-    if case.eos_seen && !case.stop_called && case.all_idle() && case.queue_len() != 0 {
+    if let Some((q, cl)) = case.eos_early {
+        if q != 0 { fails.push((sig("eos-before-drained"), format!("end-of-stream returned (no stop() before it) with {q} sample(s) queued at that moment"))); }
+        else if !cl { fails.push((sig("eos-without-close"), "end-of-stream returned although neither stop() was called nor the source closed".into())); }
+    } else if case.eos_seen && !case.stop_called && case.all_idle() && case.queue_len() != 0 {
         fails.push((sig("eos-before-drained"), format!("end-of-stream returned with {} sample(s) still queued", case.queue_len())));
     }
     if case.consumer_stuck() && closed && case.all_producers_gone() && !case.stop_called {
@@ -136,6 +139,9 @@ pub fn exec_labels(init: (usize, usize, usize), pipe: bool, labels: &[Label]) ->
 /// currently blocked ones) and picks; the run ends when nothing is enabled.
 fn exec_program(prog: &Program, choose: &mut dyn FnMut(usize, &[Label], &[Label]) -> Label) -> Outcome {
     let mut case = Case::new(Init { cap: prog.init.0, start: prog.init.1, nprod: prog.init.2, pipe: prog.pipe });
+    // a few walks wait long for a probed thread, so that a lock with a bounded wait (`try_lock_for`)
+    // up to that bound is seen to let the thread through
+    if prog.name.contains("probe-long") { case.probe_wait = std::time::Duration::from_millis(400); }
     let mut next_op: std::collections::BTreeMap<Tid, usize> = Default::default();
     let mut labels = vec![];
     let mut toks = vec![];
@@ -216,13 +222,14 @@ fn explore_exhaustive(prog: &Program, limit: usize, prefix: &[usize], sink: &mut
 }
 
 fn explore_random(prog: &Program, count: usize, rng: &mut Rng, sink: &mut dyn FnMut(Outcome)) {
+    let long_probe = prog.name.contains("probe-long");
     for _ in 0..count {
         // preemption-biased random walk: mostly keep running the same thread, switch with prob 1/3;
         // sometimes grant a blocked thread (the step must then be a no-op on both sides)
         let mut r = rng.fork();
         let mut cur: Option<Tid> = None;
         let out = exec_program(prog, &mut |_d, en, bl| {
-            if !bl.is_empty() && r.chance(1, 30) { return r.pick(bl).clone(); }
+            if !bl.is_empty() && r.chance(1, if long_probe { 3 } else { 30 }) { return r.pick(bl).clone(); }
             if let Some(c) = cur { if !r.chance(1, 3) { if let Some(l) = en.iter().find(|l| l.tid == c) { return l.clone(); } } }
             let l = r.pick(en).clone();
             cur = Some(l.tid);
@@ -268,6 +275,12 @@ pub fn programs(thorough: bool, rng: &mut Rng) -> Vec<(Program, usize, usize)> {
     v.push((p("3p-mixed", (3, 0, 3), vec![vec![Op::Send(vec![1, 2])], vec![Op::TrySend(1), Op::DropSrc], vec![s1(1), s1(2)]], vec![Op::Recv, Op::Recv], vec![Op::Stop]), 0, 300 * k));
     // index wrap-around of the ring (power-of-two capacity: harmless; see NOTES for capacity 3)
     v.push((p("wrap-cap2", (2, usize::MAX - 1, 1), vec![vec![Op::Send(vec![1, 2, 3])]], vec![Op::Recv, Op::Recv], vec![]), 0, 100 * k));
+    // index wrap × close × parked consumer: the producer's single push wraps `tail` to 0 while `head` is
+    // still usize::MAX, then the last source is dropped (complete trees, track and pipeline)
+    v.push((p("wrap-drop-recv", (2, usize::MAX, 1), vec![vec![s1(1), Op::DropSrc]], vec![Op::Recv, Op::Recv], vec![]), 0, 500 * k));
+    v.push((p("wrap-send-drop-park", (2, usize::MAX, 1), vec![vec![s1(1), Op::DropSrc]], vec![Op::Recv], vec![]), 0, 500 * k));
+    v.push((p("pipe-wrap-drop-recv", (2, usize::MAX, 1), vec![vec![s1(1), Op::DropSrc]], vec![Op::Recv, Op::Recv], vec![]), 0, 400 * k));
+    v.push((p("wrap-cap3-2p-drop", (3, usize::MAX - 1, 2), vec![vec![Op::Send(vec![1, 2]), Op::DropSrc], vec![s1(1), Op::DropSrc]], vec![Op::Recv, Op::Recv, Op::Recv, Op::Recv], vec![]), 0, 300 * k));
     // regression for the fixed finding `wrap-npot`: capacity 3 across the index wrap-around (sequential + random)
     v.push((p("wrap-npot-cap3", (3, usize::MAX - 2, 1), vec![vec![s1(1), s1(2), s1(3), s1(4)]], vec![Op::Recv, Op::Recv, Op::Recv, Op::Recv], vec![]), 0, 150 * k));
     v.push((p("wrap-cap5-2p", (5, usize::MAX - 3, 2), vec![vec![Op::Send(vec![1, 2, 3])], vec![s1(1), Op::TrySend(2), s1(3)]], vec![Op::Recv, Op::Recv, Op::Recv], vec![]), 0, 150 * k));
@@ -286,6 +299,8 @@ pub fn programs(thorough: bool, rng: &mut Rng) -> Vec<(Program, usize, usize)> {
     v.push((p("probe-2p-send-send", (2, 0, 2), vec![vec![s1(1)], vec![s1(1)]], vec![], vec![]), 3000, 0));
     v.push((p("probe-2p-try-send", (1, 0, 2), vec![vec![Op::TrySend(1)], vec![s1(1)]], vec![], vec![]), 3000, 0));
     v.push((p("pipe-probe-2p-send-send", (2, 0, 2), vec![vec![s1(1)], vec![s1(1)]], vec![], vec![]), 3000, 0));
+    v.push((p("probe-long-2p", (2, 0, 2), vec![vec![s1(1)], vec![s1(1)]], vec![Op::Recv], vec![]), 0, if thorough { 40 } else { 10 }));
+    v.push((p("pipe-probe-long-2p", (2, 0, 2), vec![vec![s1(1)], vec![s1(1)]], vec![Op::Recv], vec![]), 0, if thorough { 40 } else { 10 }));
     v.push((p("probe-3p-cap1", (1, 0, 3), vec![vec![s1(1), s1(2)], vec![s1(1)], vec![Op::TrySend(1)]], vec![Op::Recv], vec![]), 0, 120 * k));
     v.push((p("probe-dropoldest-recv", (1, 0, 1), vec![vec![s1(1), s1(2), s1(3)]], vec![Op::Recv, Op::Recv], vec![]), 0, 150 * k));
     v.push((p("pipe-probe-dropoldest-recv", (1, 0, 2), vec![vec![s1(1), s1(2)], vec![s1(1), s1(2)]], vec![Op::Recv, Op::Recv], vec![]), 0, 120 * k));
